@@ -628,6 +628,103 @@ theorem fmtSimple_quoted (p : Prefs) (hsp : isBlank p.spacer = true) (v : Cps) :
   · unfold fmtSimple
     rw [outAppend_nil_uri, outValue_trail p hsp]; simp
 
+/-! ## leaves: a canonical number is an ordinary word -/
+
+theorem digit_plain_char {c : Nat} (h : isDigit c = true) :
+    (!outPunct.contains c && !isSpaceChar c) = true ∧ c ≠ 0x2A ∧ c ≠ 0x20 := by
+  have h1 : ∀ x ∈ outPunct, isDigit x = false := by decide
+  have h2 : ∀ x ∈ Gen.C18.spaceChars, isDigit x = false := by decide
+  refine ⟨?_, ?_, ?_⟩
+  · simp only [Bool.and_eq_true, Bool.not_eq_true', isSpaceChar]
+    constructor
+    · cases hc : outPunct.contains c with
+      | false => rfl
+      | true => rw [h1 c (List.contains_iff_mem.mp hc)] at h; cases h
+    · cases hc : Gen.C18.spaceChars.contains c with
+      | false => rfl
+      | true => rw [h2 c (List.contains_iff_mem.mp hc)] at h; cases h
+  · intro e; subst e; revert h; decide
+  · intro e; subst e; revert h; decide
+
+/-- the text of a well-formed literal whose unit has no blank is an ordinary word -/
+theorem plain_lit_text {l : Lit} (h : l.Wf) (hu : ∀ c ∈ l.unit, c ≠ 0x20) : Plain l.text := by
+  obtain ⟨d, hd, hdig⟩ := Lit.text_has_digit h
+  obtain ⟨hd1, _, _⟩ := digit_plain_char hdig
+  unfold Plain plainB
+  simp only [Bool.and_eq_true, Bool.not_eq_true', beq_eq_false_iff_ne]
+  refine ⟨⟨List.any_eq_true.mpr ⟨d, hd, hd1⟩, ?_⟩, ?_⟩
+  · -- the last character: of the unit, else a digit
+    unfold Lit.text
+    by_cases hun : l.unit = []
+    · rw [hun, List.append_nil]
+      cases hf : l.fp with
+      | none =>
+        have hip : l.ip ≠ [] := h.ipne hf
+        have hl : l.ip.getLast? = some (l.ip.getLast hip) := List.getLast?_eq_some_getLast hip
+        have hdg : isDigit (l.ip.getLast hip) = true := h.ip _ (List.getLast_mem hip)
+        simp only [fracText, List.append_nil]
+        exact endsWithRawSpace_of_last hl (digit_plain_char hdg).2.2 l.sign
+      | some f =>
+        obtain ⟨hfd, hfne⟩ := h.fp f hf
+        have hl : f.getLast? = some (f.getLast hfne) := List.getLast?_eq_some_getLast hfne
+        have hdg : isDigit (f.getLast hfne) = true := hfd _ (List.getLast_mem hfne)
+        have e : l.sign ++ (l.ip ++ fracText (some f)) = (l.sign ++ (l.ip ++ [cDot])) ++ f := by
+          simp [fracText]
+        rw [e]
+        exact endsWithRawSpace_of_last hl (digit_plain_char hdg).2.2 _
+    · have hl : l.unit.getLast? = some (l.unit.getLast hun) := List.getLast?_eq_some_getLast hun
+      have e : l.sign ++ (l.ip ++ (fracText l.fp ++ l.unit)) = (l.sign ++ (l.ip ++ fracText l.fp)) ++ l.unit := by
+        simp
+      rw [e]
+      exact endsWithRawSpace_of_last hl (hu _ (List.getLast_mem hun)) _
+  · -- the first character: the sign, else a digit, else the point
+    unfold Lit.text
+    rcases h.sign with hs | hs | hs
+    · rw [hs, List.nil_append]
+      cases hip : l.ip with
+      | cons a t =>
+        have : isDigit a = true := h.ip a (by simp [hip])
+        simpa using (digit_plain_char this).2.1
+      | nil =>
+        cases hf : l.fp with
+        | none => exact absurd hip (h.ipne hf)
+        | some f => simp [fracText, cDot]
+    · rw [hs]; simp [cPlus]
+    · rw [hs]; simp [cMinus]
+
+theorem lowerAscii_ne_space {c : Nat} (h : c ≠ 0x20) : lowerAscii c ≠ 0x20 := by
+  unfold lowerAscii; split <;> omega
+
+/-- the canonical literal has no blank in its unit if the literal has none -/
+theorem canonLit_unit_noSpace (olz : Bool) {l : Lit} (hu : ∀ c ∈ l.unit, c ≠ 0x20) :
+    ∀ c ∈ (canonLit olz l).unit, c ≠ 0x20 := by
+  have hm : ∀ c ∈ l.unit.map lowerAscii, c ≠ 0x20 := by
+    intro c hc
+    obtain ⟨a, ha, rfl⟩ := List.mem_map.mp hc
+    exact lowerAscii_ne_space (hu a ha)
+  unfold canonLit
+  simp only
+  split
+  · split
+    · intro c hc; cases hc
+    · exact hm
+  · split <;> exact hm
+
+/-- **numbers are ordinary words**: for every well-formed literal with at most six fraction digits whose unit has no
+blank, the written text (exact layer) is `Plain` — the hypothesis of the T18.5 theorems holds for numeric leaves -/
+theorem num_leaf_plain {l : Lit} (h : l.Wf) (p : Prefs) (typ : NumType) (hsp : isBlank p.spacer = true)
+    (h6 : (l.fp.getD []).length ≤ 6) (hov : l.tooLarge = false) (hu : ∀ c ∈ l.unit, c ≠ 0x20) :
+    Comp.LeavesPlain exactOps p (.num typ l.text) := by
+  intro t ht
+  have hrt : roundTrip p typ l.text = .ok (canonLit p.omitLeadingZero l).text := roundTrip_canon h p typ hsp h6 hov
+  have e : Comp.text exactOps p (.num typ l.text) = roundTrip p typ l.text := by
+    unfold Comp.text roundTrip
+    cases parseDim typ l.text <;> rfl
+  rw [e, hrt] at ht
+  injection ht with ht
+  subst ht
+  exact plain_lit_text (Wf.canon h _) (canonLit_unit_noSpace _ hu)
+
 /-! ## a sample value for the non-vacuity example in `Props/C18.lean` -/
 
 /-- minified: both spacers empty -/
